@@ -74,6 +74,11 @@ func Round(x float64, prec jtypes.OptionalInt) float64 {
 		} else {
 			x = math.Ceil(intermed)
 		}
+	} else if intermed == math.Trunc(intermed) {
+		// Already an integer. (Adding 0.5 is not exact above
+		// 2^52 and would round an odd integer up to the next
+		// even one.)
+		x = intermed
 	} else {
 		if x < 0 {
 			x = math.Ceil(intermed - 0.5)
